@@ -618,7 +618,7 @@ func (w *world) prim(c *chn, op string, st *kernel.Step) {
 	b0 := w.fdb.n
 	w.opImages, w.opFailed = w.opImages[:0], false
 
-	if op == "set-withdrawn" && st != nil && st.Int("failw") > 0 && w.mode == modeViews {
+	if (op == "set-withdrawn" || op == "create") && st != nil && st.Int("failw") > 0 && w.mode == modeViews {
 		// C11 under a write error: the failw-th write of this removal fails; the
 		// channel is then half removed ("dead": neither live nor removed)
 		w.fdb.failRel = int(st.Int("failw"))
@@ -706,7 +706,7 @@ func (w *world) prim(c *chn, op string, st *kernel.Step) {
 				// an injected write error interrupted the operation: the channel is
 				// abandoned; every other channel must be unaffected
 				c.dead, c.ref = true, nil
-				w.res.Count("probe.half-removed", 1)
+				w.res.Count("probe.half-"+map[bool]string{true: "created", false: "removed"}[op == "create"], 1)
 			} else {
 				c.ref = after
 				if after == nil {
